@@ -2940,6 +2940,7 @@ fn main() {
 	}
 	if mode == "all" || mode == "glue" {
 		glue::glue(&mut cx, &work);
+		more::io_points(&mut cx, &work);
 	}
 	if mode == "all" || mode == "csend" {
 		more::concurrent_senders(&mut cx);
@@ -2952,6 +2953,7 @@ fn main() {
 	}
 	if mode == "all" || mode == "peers" {
 		more::peers_level(&mut cx, &work);
+		more::server_accept(&mut cx, &work);
 	}
 	if mode == "all" || mode == "wtime" {
 		more::write_timeouts(&mut cx);
